@@ -117,6 +117,22 @@ inverses this is `ifft2(fft2(x) * H)`, the core of `apply_transfer_functions(shi
 def filter2 (m n : Nat) (F1 F2 G1 G2 H x : Mat C) : Mat C :=
   idft2 m m n n G1 (hadamard (dft2 m m n n F1 x F2) H) G2
 
+/-- `DM.render` without rotation / resampling as an operator on the actuator array: scatter onto the lattice,
+Fourier-filter with `H`, scale by the real factor `c` (`2·obliquity` or `1`), then pad to the output size … -/
+def dmRenderPad (ky kx loy sty lox stx m n : Nat) (oy ox : Int) (F1 F2 G1 G2 H : Mat C) (c : C) (a : Mat C) : Mat C :=
+  pad2 m n oy ox (fun i j => c * filter2 m n F1 F2 G1 G2 H (scatter2 ky kx loy sty lox stx a) i j)
+
+/-- … and `render_backprop` for that geometry: crop, scale, filter with `conj H`, gather -/
+def dmBackPad (conj : C → C) (loy sty lox stx m n : Nat) (oy ox : Int) (F1 F2 G1 G2 H : Mat C) (c : C) (y : Mat C) : Mat C :=
+  gather2 loy sty lox stx (filter2 m n F1 F2 G1 G2 (fun i j => conj (H i j)) (fun i j => c * crop2 oy ox y i j))
+
+/-- the cropping geometry (output `M × N` smaller than the influence-function grid `m × n`) -/
+def dmRenderCrop (ky kx loy sty lox stx m n : Nat) (oy ox : Int) (F1 F2 G1 G2 H : Mat C) (c : C) (a : Mat C) : Mat C :=
+  crop2 oy ox (fun i j => c * filter2 m n F1 F2 G1 G2 H (scatter2 ky kx loy sty lox stx a) i j)
+
+def dmBackCrop (conj : C → C) (loy sty lox stx m n M N : Nat) (oy ox : Int) (F1 F2 G1 G2 H : Mat C) (c : C) (y : Mat C) : Mat C :=
+  gather2 loy sty lox stx (filter2 m n F1 F2 G1 G2 (fun i j => conj (H i j)) (fun i j => c * pad2 M N oy ox y i j))
+
 /-- the modal sum `w ↦ Σ_k w_k M_k` and its companion `d ↦ (Σ_ij M_k[i,j] d[i,j])_k` -/
 def modalSum (k : Nat) (modes : Nat → Mat C) (w : Vec C) : Mat C :=
   fun i j => sumTo k fun l => modes l i j * w l
@@ -229,6 +245,17 @@ def fpmBackFull (cosf sinf sqrtf : K → K) (twoPi : K) (p0 p1 M0 M1 : Nat)
   let inter : Mat (Cx K) := fun i j => eb i j * Cx.conj (mask i j)
   fixedBack cosf sinf sqrtf twoPi (Num.ofInt 1) p0 p1 M0 M1 dx efl wavelength fpmDx sx sy inter
 
+/-- `to_fpm_and_back` itself with the same bases (the forward operator whose adjoint `fpmBackFull` must be) -/
+def fpmFwdFull (cosf sinf sqrtf : K → K) (twoPi : K) (p0 p1 M0 M1 : Nat)
+    (dx efl wavelength fpmDx sx sy : K) (mask x : Mat (Cx K)) : Mat (Cx K) :=
+  let b1 := mdftBases cosf sinf sqrtf twoPi (Num.ofInt 1) p0 p1 M0 M1
+    (fixedQ (Num.ofInt (p0 : Int)) dx efl wavelength fpmDx) (fixedQ (Num.ofInt (p1 : Int)) dx efl wavelength fpmDx)
+    (sx / fpmDx) (sy / fpmDx)
+  let b2 := mdftBases cosf sinf sqrtf twoPi (Num.ofInt (-1)) M0 M1 p0 p1
+    (fixedQ (Num.ofInt (M0 : Int)) fpmDx efl wavelength dx) (fixedQ (Num.ofInt (M1 : Int)) fpmDx efl wavelength dx)
+    (sx * dx / fpmDx / dx) (sy * dx / fpmDx / dx)
+  fpmFwd p0 p1 M0 M1 b1.1 b1.2 mask b2.1 b2.2 x
+
 /-- `babinet_backprop` (no shift): `cbar − T^H cbar`, `cbar = conj(L) ⊙ y`, mask `1 − fpm` -/
 def babinetBackFull (cosf sinf sqrtf : K → K) (twoPi : K) (p0 p1 M0 M1 : Nat)
     (dx efl wavelength fpmDx : K) (fpm lyot y : Mat (Cx K)) : Mat (Cx K) :=
@@ -272,6 +299,52 @@ def babinetBackFullT (cosf sinf sqrtf : K → K) (twoPi : K) (p0 p1 M0 M1 : Nat)
   let t := fpmBackFullT cosf sinf sqrtf twoPi p0 p1 M0 M1 dx efl wavelength fpmDx (Num.ofInt 0) (Num.ofInt 0)
               (fun i j => one - fpm i j) cbar.fn
   Tab.ofFn p0 p1 fun i j => cbar.fn i j - t.fn i j
+
+/-! ### `DM.render_backprop` (no rotation, `upsample = 1`) with every step modelled: lattice indices, transfer
+function `fft2(ifftshift(ifn))·ramps`, crop/pad offsets, DFT sums -/
+
+/-- `fftfreq(n)[k]·n` -/
+def fftfreqNum (n k : Nat) : Int := if k < (n + 1) / 2 then (k : Int) else (k : Int) - (n : Int)
+
+/-- the unnormalised DFT matrix `F[j,k] = exp(-2πi·σ·jk/n)` -/
+def dftMat (cosf sinf : K → K) (twoPi sigma : K) (n : Nat) : Mat (Cx K) :=
+  fun j k => cis cosf sinf twoPi (sigma * Num.ofInt (((j * k) % n : Nat) : Int) / Num.ofInt (n : Int))
+
+/-- first index of the actuator lattice along an axis with origin `c`, `k` actuators, spacing `skip`
+(`prepare_actuator_lattice`: `c + (-k // 2)·skip + (skip // 2 if k even)`) -/
+def latticeLo (c k skip : Nat) : Int :=
+  (c : Int) + ((-(k : Int)) / 2) * (skip : Int) + (if k % 2 = 0 then ((skip / 2 : Nat) : Int) else 0)
+
+/-- crop (`M ≥ m`) or pad (`M < m`) the upstream gradient `y : M × N` to the working grid `m × n`, origin on origin;
+the decision looks at axis 0 only, as the source does -/
+def dmResize (m n M N : Nat) (y : Mat K) : Mat K :=
+  if M > m then crop2 ((M / 2 : Nat) - (m / 2 : Nat) : Int) ((N / 2 : Nat) - (n / 2 : Nat) : Int) y
+  else if M < m then pad2 M N ((m / 2 : Nat) - (M / 2 : Nat) : Int) ((n / 2 : Nat) - (N / 2 : Nat) : Int) y
+  else y
+
+def dmBackT (cosf sinf : K → K) (twoPi : K) (m n k skx sky M N : Nat) (sx sy scale : K)
+    (ifn y : Mat K) : Tab K :=
+  let one : K := Num.ofInt 1
+  let F1 := Tab.ofFn m m (dftMat cosf sinf twoPi one m)
+  let F2 := Tab.ofFn n n (dftMat cosf sinf twoPi one n)
+  -- transfer function: fft2(ifftshift(ifn)) times the two shift ramps
+  let sh := Tab.ofFn m n fun i j => Cx.ofReal (ifn ((i + m / 2) % m) ((j + n / 2) % n))
+  let t1 := Tab.ofFn m n (matmul m F1.fn sh.fn)
+  let H0 := Tab.ofFn m n (matmul n t1.fn F2.fn)
+  let H := Tab.ofFn m n fun i j =>
+    H0.fn i j * cis cosf sinf twoPi (Num.ofInt (fftfreqNum n j) / Num.ofInt (n : Int) * sx)
+             * cis cosf sinf twoPi (Num.ofInt (fftfreqNum m i) / Num.ofInt (m : Int) * sy)
+  -- upstream gradient on the working grid, scaled
+  let yr := Tab.ofFn m n fun i j => Cx.ofReal (scale * dmResize m n M N y i j)
+  let u1 := Tab.ofFn m n (matmul m F1.fn yr.fn)
+  let Y := Tab.ofFn m n (matmul n u1.fn F2.fn)
+  let Z := Tab.ofFn m n fun i j => Y.fn i j * Cx.conj (H.fn i j)
+  let v1 := Tab.ofFn m n (matmul m (fun i j => Cx.conj (F1.fn i j)) Z.fn)
+  let W := Tab.ofFn m n (matmul n v1.fn (fun i j => Cx.conj (F2.fn i j)))
+  let norm : K := one / (Num.ofInt (m : Int) * Num.ofInt (n : Int))
+  let loy := (latticeLo (m / 2) k sky).toNat
+  let lox := (latticeLo (n / 2) k skx).toNat
+  Tab.ofFn k k fun i j => norm * (W.fn (loy + i * sky) (lox + j * skx)).re
 
 /-- `Wavefront.intensity_backprop`: `Gbar = 2 · Ibar · E` -/
 def intensityBack (Ibar : K) (E : Cx K) : Cx K := Cx.smul (Num.ofInt 2 * Ibar) E
